@@ -105,6 +105,14 @@ def replay_labels(prog: dict, labels: list[dict]) -> dict:
                 run.send_cancel()
             elif nm == "EarlyStart":
                 run.early_start(lb["mid"][1])
+            elif nm == "SendCancelRegion":
+                run.send_cancel_region(lb["mid"][1])
+            elif nm == "PauseWorkflow":
+                run.pause()
+            elif nm == "Unpause":
+                run.unpause()
+            elif nm == "SendRestart":
+                run.restart_stage(lb["mid"][1])
             elif nm == "SendSignal":
                 run.send_signal(lb["mid"][1], lb["mid"][2] == "persistent")
             elif nm == "Crash":
@@ -207,7 +215,7 @@ def meta_to_job(prog: dict, meta: dict) -> dict | None:
     if k == "schedule":
         return {"kind": "schedule", "prog": prog, "seeds": [meta["seed"]], "opts": meta.get("opts", {})}
     if k and k.startswith("inject-"):
-        return {"kind": "inject", "prog": prog, "what": k[7:], "at": [meta["at"]], "times": meta.get("times", 1)}
+        return {"kind": "inject", "prog": prog, "what": k[7:], "at": [meta["at"]], "times": meta.get("times", 1)}   # (also region:<name>)
     if k == "redeliver":
         return {"kind": "redeliver", "prog": prog, "cases": [(meta["victim"], meta["after"])],
                 "opts": {"restart": meta.get("restart", False), "reset_bloom": meta.get("reset", False),
